@@ -6,12 +6,18 @@
 import BB.Oracle.Util
 import BB.Oracle.Buffer
 import BB.Oracle.Cleaner
+import BB.Oracle.Channel
+import BB.Oracle.Retry
+import BB.Oracle.Callable
 
 open BB.Oracle
 
 def families : List (String × Fam) := [
   ("buffer", BufferFam.fam),
-  ("cleaner", CleanerFam.fam)
+  ("cleaner", CleanerFam.fam),
+  ("channel", ChannelFam.fam),
+  ("retry", RetryFam.fam),
+  ("callable", CallableFam.fam)
 ]
 
 structure OAcc (σ : Type) where
